@@ -21,7 +21,12 @@ type gor struct {
 	started bool
 	ready   func() bool // nil: runnable; otherwise blocked until ready() holds
 	what    string      // what it is blocked on (diagnostics)
-	stack   []*ssa.Function
+	// wouldBlock: the goroutine is parked at the scheduling point in front of a lock acquisition;
+	// while the lock is held, switching to it is a no-op (it would block at once), so it is not
+	// offered as an alternative (partial-order reduction)
+	wouldBlock func() bool
+	held       int // write locks currently held (CS_ATOMIC reduction)
+	stack      []*ssa.Function
 }
 
 var callFns []*ssa.Function
@@ -70,6 +75,9 @@ func (e *Engine) runnable() []*gor {
 		if g.done {
 			continue
 		}
+		if g.ready == nil && g.wouldBlock != nil && g != e.cur && g.wouldBlock() {
+			continue
+		}
 		if g.ready == nil || g.ready() {
 			r = append(r, g)
 		}
@@ -107,6 +115,11 @@ func (e *Engine) yield(forced bool) {
 		return
 	}
 	if !forced && !e.schedFull() {
+		return
+	}
+	if !forced && e.cur.held > 0 && e.Params["CS_ATOMIC"] == 1 {
+		// reduction (job parameter): inside a critical section atomic steps are not scheduling
+		// points; sound when every access to the protected data takes the same lock
 		return
 	}
 	if !forced && e.cur.id == 0 {
